@@ -299,11 +299,11 @@ class BaseResponse:
                                 "returned.", self._units)
 
             if self.content_type \
-                    and not self.__headers.get('Content-Type'):
+                    and 'Content-Type' not in self.__headers:
                 self.__headers.add('Content-Type', self.content_type)
 
             if self.content_length \
-                    and not self.__headers.get('Content-Length'):
+                    and 'Content-Length' not in self.__headers:
                 self.__headers.add('Content-Length',
                                    str(self.content_length))
 
